@@ -23,9 +23,19 @@ def run_wqcases(chk, pid, runner, tier, seed, workdir, log, only_key):
     r = chk.run(base + ["-out", out], cwd=workdir, timeout=runner.get("timeout", 170 if tier == "quick" else 2400))
     log.append(("harness " + name, r.returncode, (r.stdout[-1000:] + r.stderr[-3000:])))
     if r.returncode != 0:
-        res["failures"].append({"kind": "correspondence", "theorem_or_correspondence": corr,
-                                "detail": "harness crashed: " + r.stderr[-3000:],
-                                "signature": "harness-crash:" + r.stderr[-300:], "found_failing_input": True})
+        # the queue under test panicked (or the harness timed out): the script that was being executed is the failing input
+        import re
+        prog = {}
+        try:
+            prog = json.load(open(os.path.join(out, "progress.json")))
+        except Exception:
+            pass
+        m = re.search(r"(panic: .*|fatal error: .*|TIMEOUT.*)", r.stderr)
+        frames = sorted(set(re.findall(r"workqueue\.\(\*Queue\)\.(\w+)", r.stderr)))
+        sig = "harness-crash:%s:%s" % (m.group(1)[:100] if m else "exit %s" % r.returncode, ",".join(frames[:4]))
+        res["failures"].append({"kind": "monitor", "theorem_or_correspondence": "the process running the scripts died (panic in the queue) or hung",
+                                "case": prog, "stimuli": prog.get("stimuli"),
+                                "detail": r.stderr[-2500:], "signature": sig, "found_failing_input": True})
         return res
     verdicts, stats = chk.eval_cases(out, log)
     cases = json.load(open(os.path.join(out, "cases.json")))
@@ -83,7 +93,13 @@ def run_wqcases(chk, pid, runner, tier, seed, workdir, log, only_key):
                 "stimuli": cases[i]["desc"]["stimuli"]}
                for i, _, _ in chosen], open(rr, "w"))
     out2 = os.path.join(workdir, name + "-rerun")
-    r2 = chk.run(base + ["-rerun", rr, "-times", "3", "-out", out2], cwd=workdir, timeout=120 if tier == "quick" else 600)
+    # Scripts of the "held-adjust" family end in a state where Go's select chooses at random between an arrival and
+    # a completion token; every choice is covered by the model, so any disagreement is a defect, but a defect shows only
+    # for some of the choices.  They are re-executed 12 times and count as reproduced when at least 2 re-executions fail
+    # (a one-off scheduling hiccup of the harness is still not reported); all other scripts: 3 of 3.
+    racy = lambda sig: sig.startswith("held-adjust")
+    ntimes = 12 if any(racy(sig) for _, _, sig in chosen) else 3
+    r2 = chk.run(base + ["-rerun", rr, "-times", str(ntimes), "-out", out2], cwd=workdir, timeout=120 if tier == "quick" else 600)
     log.append(("harness rerun", r2.returncode, r2.stderr[-2000:]))
     repro = {}
     if r2.returncode == 0:
@@ -105,10 +121,14 @@ def run_wqcases(chk, pid, runner, tier, seed, workdir, log, only_key):
         for k in range(len(chosen)):
             repro[k] = (3, 3)
     dropped = 0
-    any_monitor = any(v == 1 and repro.get(k, (3, 3))[0] == repro.get(k, (3, 3))[1] for k, (_, v, _) in enumerate(chosen))
+
+    def reproduced(k, sig):
+        f, n = repro.get(k, (3, 3))
+        return n == 0 or (f >= 2 if racy(sig) else f == n)
+    any_monitor = any(v == 1 and reproduced(k, sig) for k, (_, v, sig) in enumerate(chosen))
     for k, (idx, v, sig) in enumerate(chosen):
         f, n = repro.get(k, (3, 3))
-        if n > 0 and f < n:
+        if not reproduced(k, sig):
             dropped += 1
             continue
         if v != 1 and any_monitor:
